@@ -134,6 +134,23 @@ func expectedDNS(qname string, rrs []c17RR, sections []int) string {
 				cn = append(cn, rr.Name+"->"+rr.Data)
 			}
 		case "ptr":
+			if strings.HasSuffix(rr.Name, ".ip6.arpa") {
+				// 32 nibbles, least significant first
+				nib := strings.Split(strings.TrimSuffix(rr.Name, ".ip6.arpa"), ".")
+				var hexs string
+				for i := 31; i >= 0; i-- {
+					hexs += nib[i]
+				}
+				raw, _ := hex.DecodeString(hexs)
+				if !seenP[rr.Data] {
+					seenP[rr.Data] = true
+					ptr = append(ptr, fmt.Sprintf("%s=%s", rr.Data, netip.AddrFrom16([16]byte(raw))))
+				}
+				continue
+			}
+			if !strings.HasSuffix(rr.Name, ".in-addr.arpa") {
+				continue // the owner is not an address (e.g. a service PTR): nothing the table could record
+			}
 			if !seenP[rr.Data] {
 				seenP[rr.Data] = true
 				// the owner name is d.c.b.a.in-addr.arpa: the address is a.b.c.d
@@ -241,7 +258,7 @@ func c17Names() []string {
 	return names
 }
 
-var c17Kinds = []string{"a", "aaaa", "cname", "ptr", "mx", "txt"}
+var c17Kinds = []string{"a", "aaaa", "cname", "ptr", "mx", "txt", "ptr6", "ptrsvc"}
 
 func c17MakeRR(kind string, idx int, owner string) c17RR {
 	switch kind {
@@ -253,6 +270,15 @@ func c17MakeRR(kind string, idx int, owner string) c17RR {
 		return c17RR{"cname", owner, fmt.Sprintf("alias%d.example.net", idx)}
 	case "ptr":
 		return c17RR{"ptr", fmt.Sprintf("%d.0.168.192.in-addr.arpa", 10+idx), fmt.Sprintf("host%d.example.com", idx)}
+	case "ptr6": // the reverse name of 2001:db8::(idx+1)
+		a := netip.MustParseAddr(fmt.Sprintf("2001:db8::%x", idx+1)).As16()
+		var nib []string
+		for i := 15; i >= 0; i-- {
+			nib = append(nib, fmt.Sprintf("%x", a[i]&0xf), fmt.Sprintf("%x", a[i]>>4))
+		}
+		return c17RR{"ptr", strings.Join(nib, ".") + ".ip6.arpa", fmt.Sprintf("host6-%d.example.com", idx)}
+	case "ptrsvc": // a PTR record whose owner is not an address
+		return c17RR{"ptr", "_http._tcp." + owner, fmt.Sprintf("printer%d._http._tcp.example.com", idx)}
 	case "mx":
 		return c17RR{"mx", owner, "mail.example.com"}
 	}
@@ -802,7 +828,8 @@ func c17TwoHosts(c *core.Ctx, e *c17Env) {
 	}
 	hosts := []*packet.Host{f1.Host, f2.Host}
 	me := f1.Host.MACEntry
-	names := []packet.NameEntry{{Type: "t", Name: "a"}, {Type: "t", Name: "b", Model: "m"}, {Type: "t", Name: "a", Manufacturer: "mf", OS: "os"}}
+	// the last entry is a source that knows no name (e.g. a DHCP message without host name option)
+	names := []packet.NameEntry{{Type: "t", Name: "a"}, {Type: "t", Name: "b", Model: "m"}, {Type: "t", Name: "a", Manufacturer: "mf", OS: "os"}, {Type: "t"}}
 	upd := []func(h *packet.Host, n packet.NameEntry){
 		func(h *packet.Host, n packet.NameEntry) { h.UpdateDHCP4Name(n) },
 		func(h *packet.Host, n packet.NameEntry) { h.UpdateMDNSName(n) },
@@ -814,23 +841,41 @@ func c17TwoHosts(c *core.Ctx, e *c17Env) {
 		func() *packet.NameEntry { return &me.DHCP4Name }, func() *packet.NameEntry { return &me.MDNSName }, func() *packet.NameEntry { return &me.SSDPName },
 		func() *packet.NameEntry { return &me.LLMNRName }, func() *packet.NameEntry { return &me.NBNSName },
 	}
+	// per step: a target (address 1, address 2, or - DHCP only - the name learned with a DHCP offer, which goes to the
+	// MAC level entry directly) and one of the four entries
+	const nOpt = 3 * 4
 	for src := 0; src < 5; src++ {
-		for code := 0; code < 6*6*6; code++ {
+		for code := 0; code < nOpt*nOpt*nOpt; code++ {
 			for _, h := range hosts {
 				*h = packet.Host{Addr: h.Addr, MACEntry: h.MACEntry, Online: h.Online, HuntStage: h.HuntStage, LastSeen: h.LastSeen, Manufacturer: h.Manufacturer}
 			}
 			*macName[src]() = packet.NameEntry{}
 			x := code
 			var trace []string
+			skip := false
+			for y, step := code, 0; step < 3; step++ {
+				if y%nOpt/4 == 2 && src != 0 {
+					skip = true
+				}
+				y /= nOpt
+			}
+			if skip {
+				continue
+			}
 			for step := 0; step < 3; step++ {
-				hi, ni := x%6/3, x%3
-				x /= 6
+				hi, ni := x%nOpt/4, x%4
+				x /= nOpt
 				c.Count("evaluations", 1)
 				c.Count("update_steps", 1)
 				before := *macName[src]()
-				upd[src](hosts[hi], names[ni])
+				if hi == 2 {
+					s.SetDHCPv4IPOffer(me.MAC, ip4b, names[ni])
+					trace = append(trace, fmt.Sprintf("offer<-%+v", names[ni]))
+				} else {
+					upd[src](hosts[hi], names[ni])
+					trace = append(trace, fmt.Sprintf("addr%d<-%+v", hi+1, names[ni]))
+				}
 				after := *macName[src]()
-				trace = append(trace, fmt.Sprintf("addr%d<-%+v", hi+1, names[ni]))
 				if (before.Name != "" && after.Name == "") || (before.Model != "" && after.Model == "") || (before.Manufacturer != "" && after.Manufacturer == "") || (before.OS != "" && after.OS == "") {
 					c.Violate("merge|mac-entry-erased", fmt.Sprintf("name source %d, updates %v: the MAC level entry lost an attribute: %+v -> %+v", src, trace, before, after), c17Replay{Kind: "merge2", Args: []int{src, code}})
 					break
